@@ -379,6 +379,33 @@ def run_case(ctx, case):
                             r['offset'], ep and ep['offset'], p and p.offset), case)
         except Exception as e:  # noqa
             ctx.fail_exc('nav|fresh', e, case)
+    # a third fresh object: children first - the children of the unit entry (then of every child that has children, nearest first) are
+    # listed before anything else was walked, so that sibling subtrees have to be skipped by parsing them on demand; compile and type units
+    if case.get('fresh_nav', True):
+        try:
+            di6 = D.make_dwarfinfo(secs, case['le'], case.get('default_addr', 4))
+            for which, it in (('units', di6.iter_CUs), ('tunits', di6.iter_TUs)):
+                if not w.exp[which]:
+                    continue
+                for cu, eu in zip(list(it()), w.exp[which]):
+                    recs = [r for r in eu['recs'] if not r['null']]
+                    if not recs or cu.cu_offset != eu['offset']:
+                        continue
+                    todo = [(cu.get_top_DIE(), recs[0])]
+                    seen = 0
+                    while todo and seen < 40:
+                        d, r = todo.pop(0)
+                        seen += 1
+                        kids = list(d.iter_children())
+                        exp = [k['offset'] for k in r['kids']]
+                        if [k.offset for k in kids] != exp:
+                            ctx.fail('nav|iter_children|children-first|%s' % which, 'entry@%d of a fresh object: expected children %r got %r' % (
+                                r['offset'], exp, [k.offset for k in kids]), case)
+                            break
+                        todo += [(k, kr) for k, kr in zip(kids, r['kids']) if kr['kids']]
+                    ctx.count('nav.children-first.%s' % which)
+        except Exception as e:  # noqa
+            ctx.fail_exc('nav|children-first', e, case)
     units = case['units']
     mixed = len({(u['version'], u['fmt'], u['addr_size']) for u in units}) > 1
     nt = mixed or (total_dies >= 3 and len({f for f in feats if f.startswith('DW_FORM')}) >= 4 and bool(feats & SPECIAL))
